@@ -68,6 +68,11 @@ func GroupFor(p Prog) *decode.Group {
 	return &decode.Group{Name: "vdsl", Formats: []*decode.Format{{Name: "vdsl", DecodeFn: func(d *decode.D) any { Exec(d, p); return nil }}}}
 }
 
+// GroupForArray is GroupFor with a root array (formats with RootArray: true).
+func GroupForArray(p Prog) *decode.Group {
+	return &decode.Group{Name: "vdsl", Formats: []*decode.Format{{Name: "vdsl", RootArray: true, RootName: "items", DecodeFn: func(d *decode.D) any { Exec(d, p); return nil }}}}
+}
+
 func subGroup(body []Op) *decode.Group {
 	return &decode.Group{Name: "vsub", Formats: []*decode.Format{{Name: "vsub", DecodeFn: func(d *decode.D) any { Exec(d, body); return nil }}}}
 }
